@@ -208,6 +208,8 @@ class Impl:
                 return "RaiseValueError"
             except KeyError:
                 return "RaiseKeyError"
+            except AttributeError:
+                return "RaiseOther"
             except Exception as e:  # noqa
                 return "RaiseOther:" + type(e).__name__
 
@@ -424,11 +426,15 @@ def gen_history(rng, length, solver="glpk", ctx_p=0.12, max_depth=3, fail_p=0.15
                     o = [n, k, st, rng.random() < 0.7]
         elif n == "SetObj":
             c = in_model_r()
+            if rng.random() < fail_p:
+                c = list(im.rx)                 # may include a reaction that is not in the model: raises part-way
             if c:
                 ks = rng.sample(c, min(len(c), rng.randrange(1, 3)))
                 o = ["SetObj", [[k, rng.choice(["1", "1", "-1", "2", "1/2"])] for k in ks]]
         elif n == "SetObjCoef":
             c = in_model_r()
+            if rng.random() < fail_p:
+                c = list(im.rx)
             if c:
                 o = ["SetObjCoef", rng.choice(c), rng.choice(["1", "0", "-1", "2", "1/2"])]
         elif n == "SetDir":
